@@ -13,6 +13,8 @@ CLAIMED = {
  "C02": "MC_Expr: TLC enumerates expression trees (all operator pairs in both shapes, unary placements, ABS/INT; thorough adds all operator triples in three shapes) and checks that the token-cursor evaluator equals a parser-free Fold of the tree for the minimal and the redundant rendering; every tree is replayed as PRINT <expr>; random trees of up to 12 operators printed by the real interpreter are judged by TLC (Trace_Expr).",
  "C03": "The Abasic model is the reference interpreter. Every run of the kernel catalogue is explored by TLC and replayed transition by transition; generated structured programs (nested loops, subroutines, conditional jumps, ELSE forms, READ/DATA, DEF FN with dynamic scoping, runtime failures) are run on the real interpreter and TLC folds Step over every recorded call, comparing printed text, error kind and error line (and the whole state snapshot).",
  "C04": "MC_C04: all edit sequences over line numbers {0, 00, 7, 007, 10, 2^64-2, 2^64-1, 2^64} x bodies {PRINT, empty, untokenizable, REM} with LIST and RUN; invariant LastWriterWins compares the store with the map the property statement describes, recomputed from the call history alone; every transition replayed (LIST text, RUN order, key lists of both internal indexes).",
+ "C05": "Analyzer.tla models the file pass, the kind-checking walk, symbol warnings and the source map; MC_Analyzer enumerates every file of <=3 (quick) / <=4 (thorough) lines over an 18-shape line alphabet (numbered, unnumbered, blank, duplicate, emptied, untokenizable in three ways, CR endings, non-ASCII in strings / REM / illegal position, failing statements, undefined and unused symbols) and TLC checks that every diagnostic maps to an in-bounds, character-aligned range on the line it names and that there is one ordered token list per line; every file is analysed by the real analyzer under the same monitors (a panic is data); random files are judged by TLC; deep-nesting files run in child processes.",
+ "C06": "Both the checker (Analyzer.tla) and the interpreter (Abasic.tla) are in the model, so TLC checks the agreement as a theorem about the model: converse and forward on every writable one-line program of <=4 (quick) / <=5 (thorough) tokens over a 17-token alphabet, forward over every execution of the kernels the checker accepts; each row is analysed AND run by the real components, which must satisfy both implications themselves and match their models; generated multi-line programs the checker accepts are run under several reply scripts and seeds.",
  "C07": "One-step lemma BreakContTransparent (Break;CONT = Continue on the whole observable state) checked by TLC at every reachable state of the kernel schedules and of MC_C01; kernel schedules with breaks, inspections and CONT replayed on the real interpreter; differential driver: generated programs run uninterrupted vs with random breaks + side-effect-free (also failing) inspections + CONT, transcripts and final state compared; both runs validated by TLC.",
  "C08": "Kernels with INPUT after other statements, inside THEN / ELSE, in FOR, in a subroutine and with array targets x replies {5, abc, 1,2, empty} explored by TLC and replayed; differential driver: INPUT answered with 5 vs the same program with the assignment in its place; generated programs with INPUT validated by TLC.",
  "C09": "In the model Continue is one statement; kernel runs (tracing on) are replayed call by call so output shifts between calls are caught; generated programs with tracing validated per call by TLC; the hook's token-read counter bounds the work of every call by the longest line (12 reads per token; measured maximum 5).",
